@@ -7,6 +7,7 @@ mod generate_updatable_and_parameter_type;
 mod imperatively_loaded_fields;
 mod import_statements;
 mod iso_overload_file;
+mod js_string;
 mod normalization_ast_text;
 pub mod operation_text;
 mod persisted_documents;
